@@ -23,4 +23,5 @@ Definition wf_params (c : params) : bool := ou32b (a_sapling c) && ou32b (a_nu5 
 Definition wf_case (x : case) : bool :=
   match x with
   | Scan c prior keys nfs b o alts => wf_params c && wf_prior prior && wf_block b
+  | Upd _ _ _ => true
   end.
